@@ -25,7 +25,7 @@ type evalAnalysis struct {
 	m        *vmModel
 	events   map[*ssa.Function][]*evalEvent
 	before   map[*ssa.Function]map[ssa.Instruction]*evState
-	idxVals  map[string]ssa.Value // index value names seen in operand paths
+	idxVals  map[*ssa.Function]map[string]ssa.Value // per function: index value names seen in operand paths
 	mayWrite map[*ssa.Function]bool
 }
 
@@ -86,7 +86,7 @@ func (f *evFlow) recordIdx(v ssa.Value) {
 		case *ssa.UnOp:
 			switch a := x.X.(type) {
 			case *ssa.IndexAddr:
-				f.a.idxVals[idxName(a.Index)] = a.Index
+				f.a.idx(f.fn)[idxName(a.Index)] = a.Index
 				walk(a.X, d+1)
 			case *ssa.FieldAddr:
 				walk(a.X, d+1)
@@ -189,7 +189,7 @@ func (f *evFlow) Edge(from *ssa.BasicBlock, succ int, s *evState) (*evState, boo
 					break
 				}
 				name := k[i+1 : i+j]
-				if v, ok := f.a.idxVals[name]; ok {
+				if v, ok := f.a.idx(f.fn)[name]; ok {
 					if ins, ok := v.(ssa.Instruction); ok && body[ins.Block()] {
 						delete(s.done, k)
 						break
@@ -208,7 +208,7 @@ func (f *evFlow) Edge(from *ssa.BasicBlock, succ int, s *evState) (*evState, boo
 
 func buildEvalAnalysis(m *vmModel) *evalAnalysis {
 	a := &evalAnalysis{m: m, events: map[*ssa.Function][]*evalEvent{}, before: map[*ssa.Function]map[ssa.Instruction]*evState{},
-		idxVals: map[string]ssa.Value{}, mayWrite: map[*ssa.Function]bool{}}
+		idxVals: map[*ssa.Function]map[string]ssa.Value{}, mayWrite: map[*ssa.Function]bool{}}
 	fns := m.funcsOnRecord()
 	// mayWrite: function (transitively) stores to expr/stmt/operator or calls an evaluator
 	for changed := true; changed; {
@@ -249,4 +249,13 @@ func buildEvalAnalysis(m *vmModel) *evalAnalysis {
 		a.events[fn] = evs
 	}
 	return a
+}
+
+func (a *evalAnalysis) idx(fn *ssa.Function) map[string]ssa.Value {
+	m := a.idxVals[fn]
+	if m == nil {
+		m = map[string]ssa.Value{}
+		a.idxVals[fn] = m
+	}
+	return m
 }
